@@ -93,3 +93,54 @@ Section Compose.
       eexists; split; [reflexivity|]. apply rainbow_best_of; [assumption | reflexivity].
   Qed.
 End Compose.
+
+(* ================================================================== wave 8b (audit5b B11 / top-10 #10)
+   Performances._value_log calls np.exp (underlying.py:280), MaximumOfPerformances._value_log calls math.exp (`from math import exp`,
+   underlying.py:14, :305).  On floats these are two different functions (they differ by one ulp on about 5% of the arguments), so the
+   composition is stated with TWO exponentials: perf_value np_exp and maxperf_value math_exp.  Under LOG the two products are equal
+   exactly when the two exponentials agree at the maximal log-performance M; in general they differ by at most |eps| |np_exp M - math_exp M|. *)
+(* x -> max(x, 0) is 1-Lipschitz *)
+Lemma Qmaxb0_lipschitz a b : Qabs (Qmaxb a 0 - Qmaxb b 0) <= Qabs (a - b).
+Proof.
+  pose proof (Qle_Qabs (a - b)) as H1. pose proof (Qle_Qabs (- (a - b))) as H2. rewrite Qabs_opp in H2.
+  unfold Qmaxb. destruct (Qle_bool a 0) eqn:E1, (Qle_bool b 0) eqn:E2;
+    try apply Qle_bool_iff in E1; try apply Qle_bool_iff in E2; try apply Qle_bool_false in E1; try apply Qle_bool_false in E2;
+    apply Qabs_Qle_condition; split; lra.
+Qed.
+
+Lemma vanilla_lipschitz eps k a b : Qabs (vanilla_eval eps k a - vanilla_eval eps k b) <= Qabs eps * Qabs (a - b).
+Proof.
+  unfold vanilla_eval. eapply Qle_trans; [apply Qmaxb0_lipschitz|].
+  rewrite <- Qabs_Qmult. assert (E : eps * (a - k) - eps * (b - k) == eps * (a - b)) by ring. rewrite E. apply Qle_refl.
+Qed.
+
+Section Compose2.
+  Variable np_exp math_exp logf : Q -> Q.
+
+  Lemma rainbow_perf_vs_vanilla_maxperf_log eps n k spots path :
+    length (perf_value np_exp logf true spots path) = S n ->
+    (forall a b, a <= b -> np_exp a <= np_exp b) ->
+    exists M, qmax_list (map2q (fun v s => v - logf s) (lasts path) spots) = UFin M
+              /\ maxperf_value math_exp logf true spots path = UFin (math_exp M)
+              /\ rainbow_eval eps (rev (1 :: repeat 0 n)) k (perf_value np_exp logf true spots path) == vanilla_eval eps k (np_exp M)
+              /\ Qabs (rainbow_eval eps (rev (1 :: repeat 0 n)) k (perf_value np_exp logf true spots path) - vanilla_eval eps k (math_exp M))
+                 <= Qabs eps * Qabs (np_exp M - math_exp M).
+  Proof.
+    intros Hl Hmono.
+    destruct (rainbow_perf_is_vanilla_maxperf np_exp logf eps n k spots path true Hl (fun _ => Hmono)) as [m [Hm Hv]].
+    unfold maxperf_value in *.
+    destruct (qmax_list (map2q (fun v s => v - logf s) (lasts path) spots)) as [M| |] eqn:E; try discriminate.
+    injection Hm as <-. exists M. repeat split; [exact Hv|].
+    rewrite Hv. apply vanilla_lipschitz.
+  Qed.
+
+  (* identity representation: no exp at all *)
+  Lemma rainbow_perf_is_vanilla_maxperf_id eps n k spots path :
+    length (perf_value np_exp logf false spots path) = S n ->
+    exists m, maxperf_value math_exp logf false spots path = UFin m /\
+              rainbow_eval eps (rev (1 :: repeat 0 n)) k (perf_value np_exp logf false spots path) == vanilla_eval eps k m.
+  Proof.
+    intro Hl. destruct (rainbow_perf_is_vanilla_maxperf np_exp logf eps n k spots path false Hl) as [m [Hm Hv]]; [discriminate|].
+    exists m. split; [exact Hm | exact Hv].
+  Qed.
+End Compose2.
